@@ -52,9 +52,9 @@ theorem kept_not_empty (t : GoTy) (j : JVal) (v : GoVal) (hd : decode t j = some
   | bool =>
     cases j <;> simp_all [keptByOmitempty, decode]
     subst hd; simp [isEmpty]
-  | int =>
+  | int lo hi =>
     cases j <;> simp_all [keptByOmitempty, decode]
-    subst hd; simp [isEmpty, hk]
+    obtain ⟨_, rfl⟩ := hd; simp [isEmpty, hk]
   | string =>
     cases j <;> simp_all [keptByOmitempty, decode]
     subst hd; simp [isEmpty, hk]
@@ -92,7 +92,7 @@ mutual
 theorem roundtrip : ∀ (t : GoTy) (j : JVal), wf t = true → valid t j = true →
     ∃ v, decode t j = some v ∧ encode t v = some j
   | .bool, j, _, hv => by cases j <;> simp_all [valid, decode, encode]
-  | .int, j, _, hv => by cases j <;> simp_all [valid, decode, encode]
+  | .int lo hi, j, _, hv => by cases j <;> simp_all [valid, decode, encode]
   | .string, j, _, hv => by cases j <;> simp_all [valid, decode, encode]
   | .ptr t, j, hw, hv => by
     have hw' : wf t = true := by simpa [wf] using hw
@@ -114,7 +114,7 @@ theorem roundtrip : ∀ (t : GoTy) (j : JVal), wf t = true → valid t j = true 
       obtain ⟨v, hd, he⟩ := roundtrip t (.obj m) hw' (by simpa [valid] using hv)
       exact ⟨.ptr v, by simp [decode, hd], by simp [encode, he]⟩
   | .slice t, j, hw, hv => by
-    have hw' : wf t = true := by simpa [wf] using hw
+    have hw' : wf t = true := by simp only [wf, Bool.and_eq_true] at hw; exact hw.2
     cases j with
     | null => exact ⟨.nilv, by simp [decode], by simp [encode]⟩
     | arr l =>
